@@ -69,6 +69,8 @@ func (sc scenario) Name() string {
 type chunkReader struct {
 	left int
 	pos  *int64
+	// eofWithLast: the last chunk is returned together with io.EOF (odd sizes)
+	eofWithLast bool
 }
 
 func (r *chunkReader) Read(p []byte) (int, error) {
@@ -83,6 +85,10 @@ func (r *chunkReader) Read(p []byte) (int, error) {
 	fill(p[:n], *r.pos)
 	*r.pos += int64(n)
 	r.left -= n
+	if r.left == 0 && r.eofWithLast {
+		// the io.Reader contract allows the last bytes and the end of the stream in one call
+		return n, io.EOF
+	}
 	return n, nil
 }
 
@@ -191,7 +197,7 @@ func runProducer(bf *service.VerifBuffer, prog []op, ppos *int64) string {
 			}
 			*ppos += int64(n)
 		case 'F':
-			r := &chunkReader{left: o.N, pos: ppos}
+			r := &chunkReader{left: o.N, pos: ppos, eofWithLast: o.N%2 == 1}
 			// the byte count ReadFrom returns is not part of the property (it is 0
 			// when the buffer is closed under it), only the stream content is
 			bf.ReadFrom(r)
